@@ -340,7 +340,7 @@ func TestVerif_Dispatch(t *testing.T) {
 func verifStats(stk *verifStack) []any {
 	col := stk.collector()
 	snap := func() string {
-		b, _ := json.Marshal([]any{col.GetConnectionStats(), col.GetEndpointStats(), col.GetProxyStats()})
+		b, _ := json.Marshal([]any{col.GetConnectionStats(), col.GetEndpointStats(), col.GetProxyStats(), col.GetTranslatorStats()})
 		// LastUsedNano etc. do not change without traffic
 		return string(b)
 	}
@@ -364,5 +364,12 @@ func verifStats(stk *verifStack) []any {
 		}
 	}
 	ps := col.GetProxyStats()
-	return []any{"ep", eps, "proxy", map[string]any{"total": ps.TotalRequests, "ok": ps.SuccessfulRequests, "fail": ps.FailedRequests}}
+	var tt, tok, tfail int64
+	for _, ts := range col.GetTranslatorStats() {
+		tt += ts.TotalRequests
+		tok += ts.SuccessfulRequests
+		tfail += ts.FailedRequests
+	}
+	return []any{"ep", eps, "proxy", map[string]any{"total": ps.TotalRequests, "ok": ps.SuccessfulRequests, "fail": ps.FailedRequests},
+		"tr", map[string]any{"total": tt, "ok": tok, "fail": tfail}}
 }
